@@ -243,7 +243,10 @@ func TestC10(t *testing.T) {
 
 	hx.Sub(r, "shuffle", r.N(1500, 12000), func(t *rapid.T) hx.Playout {
 		var p rc.Pos
-		switch rapid.IntRange(0, 2).Draw(t, "src") {
+		switch rapid.IntRange(0, 3).Draw(t, "src") {
+		case 3: // castling rights present: the same placement recurs with fewer rights after a rook / king shuffle
+			p = rc.MustParse(rapid.SampledFrom([]string{"r3k2r/8/8/8/8/8/8/R3K2R w KQkq - 0 1", "r3k2r/8/8/8/8/8/8/R3K2R b KQkq - 0 1", "r3k2r/p6p/8/8/8/8/P6P/R3K2R w KQkq - 0 1",
+				"4k2r/8/8/8/8/8/8/R3K3 w Qk - 0 1", "rn2k2r/8/8/8/8/8/8/RN2K2R w KQkq - 0 1"}).Draw(t, "castleSeed"))
 		case 0:
 			p = hx.GenConstructed(t, 4)
 		case 1:
